@@ -845,6 +845,44 @@ func (p *pkgInfo) assignExpr(it item) string {
 	return fmt.Sprintf("Definition %s%s%s : Z := %s.\n", name, sep, strings.Join(params, " "), c.expr(rhs))
 }
 
+// arrayLen evaluates the constant length of an array-typed field of a struct
+// type declared in the package.
+func (p *pkgInfo) arrayLen(it item) string {
+	for _, f := range p.files {
+		for _, d := range f.Decls {
+			gd, ok := d.(*ast.GenDecl)
+			if !ok || gd.Tok != token.TYPE {
+				continue
+			}
+			for _, sp := range gd.Specs {
+				ts := sp.(*ast.TypeSpec)
+				st, ok := ts.Type.(*ast.StructType)
+				if !ok || ts.Name.Name != it.Type {
+					continue
+				}
+				for _, fld := range st.Fields.List {
+					for _, nm := range fld.Names {
+						if nm.Name != it.Field {
+							continue
+						}
+						at, ok := fld.Type.(*ast.ArrayType)
+						if !ok || at.Len == nil {
+							fail(p.fset.Position(fld.Pos()), "field %s.%s is not an array with a constant length", it.Type, it.Field)
+						}
+						name := it.As
+						if name == "" {
+							name = it.Type + "_" + it.Field + "_len"
+						}
+						return fmt.Sprintf("Definition %s : Z := %s.\n", name, zlit(p.eval(at.Len, 0)))
+					}
+				}
+				panic(terr{"struct " + it.Type + " has no field " + it.Field})
+			}
+		}
+	}
+	panic(terr{"unknown struct type " + it.Type + " in " + it.Pkg})
+}
+
 // ---- driver ----
 
 func generate(sp spec) (out string, err error) {
@@ -920,6 +958,8 @@ func generate(sp spec) (out string, err error) {
 			b.WriteString(p.rangeBound(it))
 		case "assign":
 			b.WriteString(p.assignExpr(it))
+		case "arraylen":
+			b.WriteString(p.arrayLen(it))
 		default:
 			panic(terr{"unknown item kind " + it.Kind})
 		}
